@@ -22,8 +22,8 @@ CONTRACT_GROUPS = ['C10']   # icontract layer (vlib/contracts.py) active inside 
 RULE = ("case = one configuration with R x P injected sample vectors; an entry is non-trivial if its raw value x + m*s lies outside the bounds (boundary semantics exercised) "
         "- counted per boundary type; a case is non-trivial if it has such an entry; distinct key = case index")
 ASSUMPTIONS = ["variables inside the bounds"]
-REQUIRED = {"quick": {"entries_checked": 32228, "outside.NONE": 800, "outside.TRUNCATE_BOTH": 800, "outside.MIRROR_BOTH": 800, "mirror_single_reflection": 300, "relative_magnitude_entries": 2000, "evaluator_rows_checked": 3000, "with_variable_scaler": 400, "with_section_objects_used_before": 400, "mirror_symmetry_pairs": 600, "negative_relative_magnitude_variables": 150, "with_fixed_variables": 250, "__nontrivial__": 400},
-            "thorough": {"entries_checked": 2161249, "outside.NONE": 30000, "outside.TRUNCATE_BOTH": 30000, "outside.MIRROR_BOTH": 30000, "mirror_single_reflection": 10000, "relative_magnitude_entries": 80000, "evaluator_rows_checked": 100000, "with_variable_scaler": 25000, "with_section_objects_used_before": 25000, "mirror_symmetry_pairs": 40000, "negative_relative_magnitude_variables": 6000, "with_fixed_variables": 20000, "__nontrivial__": 15000}}
+REQUIRED = {"quick": {"entries_checked": 32228, "outside.NONE": 800, "outside.TRUNCATE_BOTH": 800, "outside.MIRROR_BOTH": 800, "mirror_single_reflection": 300, "relative_magnitude_entries": 2000, "evaluator_rows_checked": 3000, "with_variable_scaler": 400, "with_section_objects_used_before": 400, "mirror_symmetry_pairs": 600, "negative_relative_magnitude_variables": 150, "with_fixed_variables": 250, "with_three_samplers_in_use": 40, "__nontrivial__": 400},
+            "thorough": {"entries_checked": 2161249, "outside.NONE": 30000, "outside.TRUNCATE_BOTH": 30000, "outside.MIRROR_BOTH": 30000, "mirror_single_reflection": 10000, "relative_magnitude_entries": 80000, "evaluator_rows_checked": 100000, "with_variable_scaler": 25000, "with_section_objects_used_before": 25000, "mirror_symmetry_pairs": 40000, "negative_relative_magnitude_variables": 6000, "with_fixed_variables": 20000, "with_three_samplers_in_use": 2500, "__nontrivial__": 15000}}
 N = {"quick": 3000, "thorough": 200000}
 NAMES = {1: "NONE", 2: "TRUNCATE_BOTH", 3: "MIRROR_BOTH"}
 
@@ -77,14 +77,16 @@ def run_case(case, obs):
             "ensemble": {"kind": "hash"}, "nan": []}
     two = V > 1 and rng.random() < 0.3
     if two:
-        smap = rng.integers(0, 2, size=V)
-        s2 = rng.uniform(-1, 1, size=(R, P, V)) * rng.choice([1e-2, 1.0, 20.0], size=(R, P, V))
-        spec["samplers"] = [{"method": "verif/design", "options": {"samples": samples.tolist()}},
-                            {"method": "verif/design", "options": {"samples": s2.tolist()}}]
+        ns = 3 if (V > 2 and rng.random() < 0.4) else 2       # two or three samplers, each handling its own variables
+        smap = rng.integers(0, ns, size=V)
+        tables = [samples] + [rng.uniform(-1, 1, size=(R, P, V)) * rng.choice([1e-2, 1.0, 20.0], size=(R, P, V)) for _ in range(ns - 1)]
+        spec["samplers"] = [{"method": "verif/design", "options": {"samples": t.tolist()}} for t in tables]
         spec["smap"] = [int(t) for t in smap]
-        eff = np.where(smap == 0, samples, s2)
-        if not np.any(smap == 0) or not np.any(smap == 1):
+        eff = np.choose(smap, tables)
+        if len(set(smap.tolist())) < ns:
             obs.feature("one_sampler_unused")
+        if len(set(smap.tolist())) >= 3:
+            obs.count("with_three_samplers_in_use")
     else:
         spec["samplers"] = [{"method": "verif/design", "options": {"samples": samples.tolist()}}]
         eff = samples
